@@ -636,13 +636,15 @@ Proof.
   - destruct sh as [|n [|? ?]]; try discriminate Hlen. cbn [time_item last] in *. cbn [out_shape].
     rewrite Hint. apply last_last.
   - destruct sh as [|n sh]; [discriminate Hlen|]. injection Hlen as Hlen.
-    destruct sh as [|n2 sh]; [discriminate Hlen|].
+    assert (Hl : last (n :: sh) 0 = last sh 0) by (destruct sh; [discriminate Hlen | reflexivity]).
+    rewrite Hl.
     change (time_item (it :: it2 :: t)) with (time_item (it2 :: t)) in *.
-    change (last (n :: n2 :: sh) 0) with (last (n2 :: sh) 0).
-    cbn [out_shape]. destruct (is_int it).
+    change (out_shape (it :: it2 :: t) (n :: sh)) with
+      (if is_int it then out_shape (it2 :: t) sh else sel_len n it :: out_shape (it2 :: t) sh).
+    destruct (is_int it).
     + apply IH; [discriminate | exact Hlen | exact Hint].
-    + change (pre ++ sel_len n it :: ?r) with (pre ++ [sel_len n it] ++ r). rewrite app_assoc.
-      apply IH; [discriminate | exact Hlen | exact Hint].
+    + change (pre ++ sel_len n it :: out_shape (it2 :: t) sh) with (pre ++ [sel_len n it] ++ out_shape (it2 :: t) sh).
+      rewrite app_assoc. apply IH; [discriminate | exact Hlen | exact Hint].
 Qed.
 
 Lemma zlen_length_eq {A B} (a : list A) (b : list B) : zlen a = zlen b -> length a = length b.
@@ -659,7 +661,7 @@ Lemma regular_time_facts x ix k per r a b c :
 Proof.
   intros Hwf Hd Hv Hti Hget.
   destruct (getitem_regular _ _ _ _ Hwf Hd Hv) as (d0 & d' & Hr0 & Hw & Hg).
-  rewrite Hg in Hget. injection Hget as <-.
+  rewrite Hg in Hget. assert (Hr : r = spec_result x k per d') by congruence. subst r. clear Hget.
   destruct (denotes_shape _ _ _ _ Hd) as (ex & _ & _ & _ & Hk0 & Hk & Hlen & HF & Hsl & _).
   assert (Hne : per <> []) by (intros ->; unfold ndim in Hlen; wf_cases x Hwf; discriminate Hlen).
   assert (Hn : 0 <= n_time x).
@@ -670,7 +672,7 @@ Proof.
     - destruct sh as [|n [|? ?]]; try discriminate Hlen. cbn [time_item last] in Hti. subst it.
       cbn [all_ok sel_ok] in Hv. lia.
     - destruct sh as [|n sh]; [discriminate Hlen|]. cbn [all_ok] in Hv. apply andb_prop in Hv. destruct Hv as [_ Hv].
-      apply (IH ltac:(discriminate) Hti sh Hv). now injection Hlen. }
+      apply (IH Hti) with (l := sh); [congruence | exact Hv | cbn [length] in *; lia]. }
   unfold spec_result. cbn [fsn fsd s0 dat]. rewrite Hti. cbn [slice_start slice_step].
   repeat split; try assumption.
   - unfold n_time at 1. cbn [shape]. unfold ndim in Hlen.
@@ -705,4 +707,161 @@ Proof.
   intros Hwf Hd Hv Hti Hget.
   destruct (regular_time_facts _ _ _ _ _ _ _ _ Hwf Hd Hv Hti Hget) as (Hn & H0 & H1 & H2 & H3 & H4 & H5).
   tauto.
+Qed.
+
+(* ------------------------------------------------------------------ lengths of selections *)
+Lemma zlen_every_nth {A} (l : list A) s : (1 <= s)%nat -> forall k, (k < s)%nat ->
+  zlen (every_nth_aux k s l) = (zlen l - Z.of_nat k + Z.of_nat s - 1) / Z.of_nat s.
+Proof.
+  intros Hs. induction l as [|x l IH]; intros k Hk.
+  - cbn [every_nth_aux]. rewrite zlen_nil. symmetry. apply Z.div_small. lia.
+  - cbn [every_nth_aux]. destruct k as [|k].
+    + rewrite !zlen_cons, IH by lia.
+      replace (1 + zlen l - Z.of_nat 0 + Z.of_nat s - 1) with (zlen l + 1 * Z.of_nat s) by lia.
+      rewrite Z.div_add by lia.
+      replace (zlen l - Z.of_nat (s - 1) + Z.of_nat s - 1) with (zlen l) by lia. lia.
+    + rewrite zlen_cons, IH by lia. f_equal. lia.
+Qed.
+
+Lemma zlen_py_slice {A} a b (l : list A) :
+  zlen (py_slice a b l) = Z.max 0 (py_hi (zlen l) b - py_lo (zlen l) a).
+Proof.
+  unfold py_slice. pose proof (py_lo_range (zlen l) a (zlen_nonneg l)). pose proof (py_hi_range (zlen l) b (zlen_nonneg l)).
+  unfold zlen in *. rewrite firstn_length, skipn_length. lia.
+Qed.
+
+Lemma zlen_py_slice_step {A} a b s (l : list A) : 1 <= s ->
+  zlen (py_slice_step a b s l) = py_slice_len (zlen l) a b s.
+Proof.
+  intros Hs. unfold py_slice_step. rewrite zlen_every_nth by lia. rewrite zlen_py_slice.
+  unfold py_slice_len. rewrite Z2Nat.id by lia.
+  destruct (py_hi (zlen l) b <=? py_lo (zlen l) a) eqn:E.
+  - replace (Z.max 0 _) with 0 by lia. apply Z.div_small. lia.
+  - replace (Z.max 0 (py_hi (zlen l) b - py_lo (zlen l) a) - Z.of_nat 0 + s - 1)
+      with (py_hi (zlen l) b - py_lo (zlen l) a - 1 + 1 * s) by lia.
+    rewrite Z.div_add by lia. lia.
+Qed.
+
+Lemma zlen_mask_sel {A} bs (l : list A) : zlen bs = zlen l -> zlen (mask_sel bs l) = count_true bs.
+Proof.
+  revert l. induction bs as [|b bs IH]; intros l H; [reflexivity|].
+  destruct l as [|x l]; [rewrite zlen_cons, zlen_nil in H; pose proof (zlen_nonneg bs); lia|].
+  rewrite !zlen_cons in H. unfold count_true in *. cbn [mask_sel filter]. destruct b.
+  - rewrite !zlen_cons, IH by lia. reflexivity.
+  - apply IH. lia.
+Qed.
+
+Lemma zlen_take_sel {A} (d : A) it l :
+  sel_ok (zlen l) it = true -> is_int it = false -> axis_item it = true ->
+  zlen (take_sel d it l) = sel_len (zlen l) it.
+Proof.
+  destruct it; try discriminate; cbn [take_sel sel_len sel_ok]; intros Hok _ _.
+  - apply zlen_py_slice_step. lia.
+  - apply zlen_map.
+  - apply zlen_mask_sel. lia.
+Qed.
+
+Lemma sel_len_nonneg n it : 0 <= n -> sel_ok n it = true -> is_int it = false -> axis_item it = true ->
+  0 <= sel_len n it.
+Proof.
+  intros Hn Hok Hi Ha.
+  assert (Hz : zlen (repeat 0 (Z.to_nat n)) = n) by (rewrite zlen_repeat; lia).
+  rewrite <- Hz in Hok |- *. rewrite <- (zlen_take_sel 0 it _ Hok Hi Ha). apply zlen_nonneg.
+Qed.
+
+Lemma py_index_rect c t blk z : rect c t blk -> idx_ok c z = true -> zlen (py_index [] blk z) = t.
+Proof.
+  intros [H1 H2] Hz. rewrite Forall_forall in H2. apply H2. apply py_index_In. now rewrite H1.
+Qed.
+
+Lemma rect_sel c t blk ic it :
+  rect c t blk -> sel_ok c ic = true -> is_int ic = false -> axis_item ic = true ->
+  sel_ok t it = true -> is_int it = false -> axis_item it = true ->
+  rect (sel_len c ic) (sel_len t it) (map (sel_t it) (take_sel [] ic blk)).
+Proof.
+  intros [H1 H2] Hc Hci Hca Ht Hti Hta. split.
+  - rewrite zlen_map. rewrite <- H1 in Hc |- *. now apply zlen_take_sel.
+  - apply Forall_forall. intros row' Hin. apply in_map_iff in Hin. destruct Hin as (row & <- & Hrow).
+    rewrite <- H1 in Hc. apply (take_sel_incl _ _ _ Hc) in Hrow.
+    rewrite Forall_forall in H2. specialize (H2 _ Hrow). unfold sel_t.
+    rewrite <- H2 in Ht |- *. now apply zlen_take_sel.
+Qed.
+
+Lemma row_sel t row it : zlen row = t -> sel_ok t it = true -> is_int it = false -> axis_item it = true ->
+  zlen (sel_t it row) = sel_len t it.
+Proof. intros <- H1 H2 H3. now apply zlen_take_sel. Qed.
+
+(* ------------------------------------------------------------------ counts equal axis lengths *)
+Lemma slice_axis a b c : is_int (ISlice a b c) = false /\ axis_item (ISlice a b c) = true.
+Proof. split; reflexivity. Qed.
+
+Theorem counts x ix k per r :
+  wf x -> denotes (ndim x) ix k per -> valid_on (shape x) per ->
+  epoch_without_channel (ndim x) k per = false ->
+  getitem x ix = RArr r -> wf r.
+Proof.
+  intros Hwf Hd Hv Hex Hget.
+  destruct (getitem_regular _ _ _ _ Hwf Hd Hv) as (d0 & d' & Hr0 & Hw & Hg).
+  rewrite Hg in Hget. assert (Hr : r = spec_result x k per d') by congruence. subst r. clear Hget Hg.
+  destruct (denotes_shape _ _ _ _ Hd) as (ex & _ & _ & _ & Hk0 & Hk & Hlen & HF & Hsl & _). clear Hd.
+  unfold valid_on in Hv. unfold spec_result, wf.
+  wf_cases x Hwf; unfold ndim in *; cbn [shape dat chan meta s0 fsn fsd] in *.
+  - change (zlen [t1]) with 1 in *.
+    destruct per as [|it [|it2 ptl]]; try (len_contra Hlen).
+    destruct it as [| a b c | | | |]; try discriminate Hsl.
+    cbn [all_ok] in Hv. split_ok Hv. destruct (slice_axis a b c) as [Hi Ha].
+    pose proof (row_sel _ _ _ Hwf Hok Hi Ha) as Hrow.
+    pose proof (sel_len_nonneg t1 _ ltac:(pose proof (zlen_nonneg r); lia) Hok Hi Ha) as Hnn.
+    cbn [np_regular] in Hr0. injection Hr0 as <-.
+    assert (Hk' : k = 0 \/ k = 1 \/ k = 2) by lia.
+    destruct Hk' as [-> | [-> | ->]]; unfold wrap_new in Hw; cbn [Z.eqb Pos.eqb sel_c sel_e] in Hw; injection Hw as <-;
+      cbn [Z.to_nat Pos.to_nat Pos.iter_op Nat.add repeat app out_shape is_int spec_chan spec_meta wrap_lab Z.gtb Z.compare].
+    + exact Hrow.
+    + repeat split; try assumption; try reflexivity. now repeat constructor.
+    + repeat split; try assumption; try reflexivity; try lia. repeat constructor; assumption.
+  - destruct Hwf as (Ht & Hrect & Hl).
+    change (zlen [t1; t2]) with 2 in *.
+    destruct per as [|ic [|it [|it2 ptl]]]; try (len_contra Hlen).
+    destruct it as [| a b0 c | | | |]; try discriminate Hsl.
+    cbn [all_ok] in Hv. split_ok Hv. destruct (slice_axis a b0 c) as [Hi Ha].
+    pose proof (Forall_inv HF) as Hpic. apply plain_axis_item in Hpic.
+    pose proof (sel_len_nonneg t2 _ Ht Hok0 Hi Ha) as Hnn.
+    cbn [np_regular] in Hr0. injection Hr0 as <-.
+    assert (Hk' : k = 0 \/ k = 1) by lia.
+    destruct Hk' as [-> | ->]; destruct ic; try discriminate Hpic; try discriminate Hex;
+      unfold wrap_new in Hw; cbn [Z.eqb Pos.eqb sel_c sel_e] in Hw; injection Hw as <-;
+      cbn [Z.to_nat Pos.to_nat Pos.iter_op Nat.add repeat app out_shape is_int spec_chan spec_meta sel_lab wrap_lab Z.gtb Z.compare].
+    all: try (apply row_sel; [eapply py_index_rect; eassumption | assumption | assumption | assumption]).
+    all: try (split; [exact Hnn|]; split; [apply rect_sel; try assumption; reflexivity|];
+              rewrite <- Hl in Hok |- *; apply zlen_take_sel; [assumption | reflexivity | reflexivity]).
+    all: (split; [lia|]; split; [exact Hnn|]; split; [reflexivity|]; split;
+          [repeat constructor; apply rect_sel; try assumption; reflexivity|]; split; [|reflexivity];
+          rewrite <- Hl in Hok |- *; apply zlen_take_sel; [assumption | reflexivity | reflexivity]).
+  - destruct Hwf as (Hc & Ht & He & Hrect & Hl & Hm).
+    change (zlen [t1; t2; t3]) with 3 in *.
+    destruct per as [|ie [|ic [|it [|it2 ptl]]]]; try (len_contra Hlen).
+    destruct it as [| a b0 c | | | |]; try discriminate Hsl.
+    cbn [all_ok] in Hv. split_ok Hv. destruct (slice_axis a b0 c) as [Hi Ha].
+    assert (k = 0) by lia. subst k.
+    pose proof (Forall_inv HF) as Hpie. pose proof (Forall_inv (Forall_inv_tail HF)) as Hpic.
+    apply plain_axis_item in Hpic. apply plain_axis_item in Hpie.
+    pose proof (sel_len_nonneg t3 _ Ht Hok1 Hi Ha) as Hnn.
+    cbn [np_regular] in Hr0. injection Hr0 as <-.
+    assert (Hblk : forall z, idx_ok t1 z = true -> rect t2 t3 (py_index [] d z)).
+    { intros z Hz. rewrite Forall_forall in Hrect. apply Hrect. apply py_index_In. now rewrite He. }
+    assert (Hsub : forall it, sel_ok t1 it = true -> forall blk, In blk (take_sel [] it d) -> rect t2 t3 blk).
+    { intros it0 H0 blk Hb. rewrite <- He in H0. apply (take_sel_incl _ _ _ H0) in Hb.
+      rewrite Forall_forall in Hrect. now apply Hrect. }
+    destruct ie; try discriminate Hpie; destruct ic; try discriminate Hpic; try discriminate Hex;
+      unfold wrap_new in Hw; cbn [Z.eqb Pos.eqb sel_c sel_e] in Hw; injection Hw as <-;
+      cbn [Z.to_nat repeat app out_shape is_int spec_chan spec_meta sel_lab].
+    all: try (apply row_sel; [eapply py_index_rect; [apply Hblk|]; eassumption | assumption | assumption | assumption]).
+    all: try (split; [exact Hnn|]; split; [apply rect_sel; try (apply Hblk); try assumption; reflexivity|];
+              rewrite <- Hl in Hok0 |- *; apply zlen_take_sel; [assumption | reflexivity | reflexivity]).
+    all: (split; [apply sel_len_nonneg; try assumption; reflexivity|]; split; [exact Hnn|]; split;
+          [rewrite zlen_map; rewrite <- He in Hok |- *; apply zlen_take_sel; [assumption | reflexivity | reflexivity]|];
+          split; [apply Forall_forall; intros blk' Hb'; apply in_map_iff in Hb'; destruct Hb' as (blk & <- & Hb);
+                  apply rect_sel; try assumption; try reflexivity; eapply Hsub; eassumption|];
+          split; [rewrite <- Hl in Hok0 |- *; apply zlen_take_sel; [assumption | reflexivity | reflexivity]|];
+          rewrite <- Hm in Hok |- *; apply zlen_take_sel; [assumption | reflexivity | reflexivity]).
 Qed.
